@@ -260,6 +260,15 @@ static std::vector<RtDiff> rt_compare(mjModel* a, mjModel* b, double tol, size_t
 
 static bool rt_extra(const std::vector<std::string>& t, const std::vector<std::string>& lines, size_t& i) {
   const std::string& op = t[0];
+  // queries on a model slot that was never filled (a failed round trip) answer "nomodel" instead of stopping the run
+  {
+    static const char* one[] = {"traj", "trajx", "names", "fld", "mget", "mbytes", "mscalar", nullptr};
+    static const char* two[] = {"mcmp", "mdiff", nullptr};
+    for (const char** q = one; *q; q++) if (op == *q && t.size() > 1 && !g_model.count(atoi(t[1].c_str()))) { printf("nomodel\n"); return true; }
+    for (const char** q = two; *q; q++) if (op == *q && t.size() > 2 && (!g_model.count(atoi(t[1].c_str())) || !g_model.count(atoi(t[2].c_str())))) { printf("nomodel\n"); return true; }
+    if (op == "data" && t.size() > 2 && !g_model.count(atoi(t[2].c_str()))) { printf("nomodel\n"); return true; }
+    if ((op == "dfld" || op == "forward" || op == "setConst") && t.size() > 1 && !g_data.count(atoi(t[1].c_str())) && op != "setConst") { printf("nodata\n"); return true; }
+  }
   if (mkx_op(t, lines, i)) return true;
   if (op == "rtspec" || op == "rtmodel") {
     int slot = atoi(t.at(1).c_str()); size_t j = i + 1;
